@@ -133,8 +133,7 @@ def gen_C11(w, tier):
             ps = w.ps.get(name)
             if ps is None:
                 continue
-            for side in "ABS":
-                x = w.scalar(ps, 0)
+            for side, x in [(sd, xv) for sd in "ABS" for xv in (0, 1, ps.q - 1, w.scalar(ps, 0))]:
                 ent = w.entropy_for(ps, x, redraws=(2 if ps.kind == "int" else 0), extra=b"\xaa" * 40)
                 a = sc.new(side, ps, b"pw", b"", b"", ent)
                 r0 = sc.do("entreq %d" % a, NONE)
@@ -143,6 +142,7 @@ def gen_C11(w, tier):
                 l1 = sc.do("entleft %d" % a)
                 sc.do("ser %d" % a)
                 b = sc.cycle(a, side, ps)
+                st_a, st_b = sc.do("state %d" % a), sc.do("state %d" % b)
                 peer = None
                 t = w.scenario("p", ())
                 p_ = t.new({"A": "B", "B": "A", "S": "S"}[side], ps, b"pw", b"", b"", w.entropy_for(ps, 3), NONE)
@@ -151,7 +151,7 @@ def gen_C11(w, tier):
                 fb = sc.finish(b, peer)
                 r2 = sc.do("entreq %d" % a, NONE)
                 l2 = sc.do("entleft %d" % a)
-                rec4.append((ps.kind, ps.ssize, r0, r1, r2, l1, l2, fb))
+                rec4.append((ps.kind, ps.ssize, r0, r1, r2, l1, l2, fb, st_a, st_b))
     finally:
         os.urandom, _random.getrandbits, _random.random, _secrets.token_bytes = saved[:4]
     sc.meta["rec4"] = rec4
@@ -160,7 +160,9 @@ def gen_C11(w, tier):
         for o in io:
             if "Boom" in o:
                 return "an ambient entropy source (os.urandom / random / secrets) was used"
-        for (kind, nb, r0, r1, r2, l1, l2, fb) in sc.meta["rec4"]:
+        for (kind, nb, r0, r1, r2, l1, l2, fb, st_a, st_b) in sc.meta["rec4"]:
+            if st_a.split()[3:] != st_b.split()[3:]:
+                return "the restored instance's secret scalar / message does not come from the saved state (fresh entropy drawn on restore?): %s vs %s" % (st_a[:90], st_b[:90])
             if r0 != "ok -":
                 return "the constructor drew entropy: %s" % r0
             want = "ok 64" if kind == "ed" else "ok " + ",".join([str(nb)] * 3)
@@ -239,6 +241,10 @@ def gen_C17(w, tier):
             m2 = m1[:-1] if r.random() < 0.5 else m1 + b"\x00"
         if r.random() < 0.1:
             m2 = m1
+        if r.random() < 0.25:          # different lengths, unrelated contents, leading zeros
+            m1, m2 = rb(r.choice([1, 2, 3, 5, 33])), rb(r.choice([1, 2, 4, 6, 34]))
+            if r.random() < 0.5:
+                m1 = b"\x00" * r.randrange(1, 3) + m1
         i = len(sc.lines)
         sc.do("finalsym %s" % " ".join(hx(x) for x in (idS, m1, m2, K, pw)))
         lo, hi = sorted([m1, m2])
